@@ -358,7 +358,8 @@ class Check:
         refuted = [o for o in self.obligations if o.status == 'refuted']
         unknown = [o for o in self.obligations if o.status not in ('proved', 'refuted')]
         violations = []
-        open_f = {f['id']: f for f in self.findings if f.get('status') == 'open' and f['property'] == self.prop}
+        open_f = {f['id']: f for f in self.findings if f.get('status') == 'open' and
+                  (f['property'] == self.prop or self.prop in f.get('also', []))}
         finding_hits: dict = {}
         for ob in refuted:
             fid = ob.meta.get('finding')
@@ -366,6 +367,13 @@ class Check:
                 finding_hits.setdefault(fid, []).append(ob)
                 continue
             violations.append(ob)
+        # an obligation isolated under an open finding that the solver can neither prove nor refute is accounted to
+        # that finding as long as the finding's native witness still fails (checked below)
+        pending_unknown = {}
+        for ob in list(unknown):
+            fid = ob.meta.get('finding')
+            if fid and fid in open_f:
+                pending_unknown.setdefault(fid, []).append(ob)
         # open findings: native witness must still fail; print KNOWN-FINDING
         for fid, f in open_f.items():
             res = run_native(self.prop, f.get('native', {}))
@@ -374,6 +382,12 @@ class Check:
                 line = f"KNOWN-FINDING: property={self.prop} {f['what']}"
                 print(line)
                 self.finding_lines.append(line)
+                for ob in pending_unknown.get(fid, []):
+                    ob.status = 'refuted'
+                    ob.note = 'undecided by the solver; accounted to the listed open finding whose native witness fails'
+                    unknown.remove(ob)
+                    refuted.append(ob)
+                    finding_hits.setdefault(fid, []).append(ob)
                 if fid not in finding_hits and not self.only:
                     # the obligation meant to expose it was not refuted: verifier and oracle disagree
                     self.errors.append(f'finding {fid}: native witness fails but no obligation tagged with it was '
@@ -384,7 +398,8 @@ class Check:
                 print(f'NOTE: listed finding {fid} no longer reproduces natively ({res["status"]})')
         # fixed findings: replay their witnesses too; a recurrence is a violation
         for f in self.findings:
-            if f.get('status') == 'fixed' and f['property'] == self.prop and f.get('native'):
+            if f.get('status') == 'fixed' and (f['property'] == self.prop or self.prop in f.get('also', [])) \
+                    and f.get('native'):
                 res = run_native(self.prop, f['native'])
                 self.native_checks.append({'finding': f['id'], 'fixed': True, 'result': res['status']})
                 if res['status'] == 'fails':
